@@ -409,10 +409,59 @@ func GenW(r *rng.R, env *Env, o GenOpts) *Tree {
 	return t
 }
 
+// W2Opts are opt-in features of GenW2With (zero value = GenW2).
+type W2Opts struct {
+	SplitPayouts bool // v1 blocks (below the v2 allow height) split their reward over two miner payouts: [other, wallet] or [wallet, wallet]
+}
+
 // GenW2 is GenW plus payments from the other party to the wallet (w-fund-other makes them
 // possible) and, one block in four once the other party has funds, a block in which the wallet
 // takes part only through pass-through outputs, mined by somebody else.
-func GenW2(r *rng.R, env *Env, o GenOpts) *Tree {
+func GenW2(r *rng.R, env *Env, o GenOpts) *Tree { return GenW2With(r, env, o, W2Opts{}) }
+
+// MineSplit is Mine for a v1 block whose reward (and fees) are split over two miner payouts, the
+// wallet not being the only or not the first payee.
+func (b *Builder) MineSplit(r *rng.R) (types.Block, []string) {
+	cs := b.CM.TipState()
+	var other types.Address
+	r.Bytes(other[:])
+	first := other
+	if r.Bool() {
+		first = b.Env.Addr
+	}
+	blk := types.Block{
+		ParentID:  cs.Index.ID,
+		Timestamp: cs.PrevTimestamps[0].Add(b.delay(r)),
+	}
+	if blk.Timestamp.Before(b.Env.Genesis.Timestamp) {
+		blk.Timestamp = b.Env.Genesis.Timestamp.Add(time.Second)
+	}
+	total := cs.BlockReward()
+	var weight uint64
+	for _, txn := range b.CM.PoolTransactions() {
+		if weight += cs.TransactionWeight(txn); weight > cs.MaxBlockWeight() {
+			break
+		}
+		blk.Transactions = append(blk.Transactions, txn)
+		total = total.Add(txn.TotalFees())
+	}
+	part := total.Div64(3)
+	blk.MinerPayouts = []types.SiacoinOutput{{Value: part, Address: first}, {Value: total.Sub(part), Address: b.Env.Addr}}
+	FindNonceFrom(cs, &blk, uint64(r.Intn(1<<20)))
+	if err := b.CM.AddBlocks([]types.Block{blk}); err != nil {
+		panic(fmt.Sprintf("builder: split-payout block rejected: %v (kinds %v)", err, b.Kinds))
+	}
+	if b.CM.Tip().ID != blk.ID() {
+		panic("builder: split-payout block did not become the tip")
+	}
+	kinds := append(b.Kinds, "w-split-miner-payouts")
+	b.Kinds = nil
+	b.reserved = map[types.Hash256]bool{}
+	b.Sync()
+	return blk, kinds
+}
+
+func GenW2With(r *rng.R, env *Env, o GenOpts, wo W2Opts) *Tree {
 	t := &Tree{Env: env, ByID: map[types.BlockID]*Node{}}
 	_, cm := env.NewManager()
 	g := &Node{Idx: 0, Block: env.Genesis, ID: env.Genesis.ID(), HdrOK: true, BodyOK: true, State: cm.TipState(), FullState: cm.TipState()}
@@ -463,7 +512,11 @@ func GenW2(r *rng.R, env *Env, o GenOpts) *Tree {
 			for i := 0; i < o.TxPerBlock; i++ {
 				b.AddTxW(r, kinds[r.Intn(len(kinds))])
 			}
-			blk, ks = b.Mine(r)
+			if wo.SplitPayouts && b.height()+1 < env.Net.HardforkV2.AllowHeight && r.Chance(1, 2) {
+				blk, ks = b.MineSplit(r)
+			} else {
+				blk, ks = b.Mine(r)
+			}
 		}
 		if _, dup := t.ByID[blk.ID()]; dup {
 			panic("chaingen: duplicate block id")
